@@ -1,5 +1,5 @@
 (* Proofs/ShutdownMore.v — C16: queued stream operations (D2), composite clean-up bodies (G), attach after close (H) *)
-From TX Require Import Model.Shutdown Proofs.Shutdown.
+From TX Require Import Model.Shutdown Proofs.Shutdown Proofs.ShutdownLife.
 From Coq Require Import Lia.
 
 (* ================================================================================================ *)
@@ -216,3 +216,159 @@ Lemma close_fast_path_refuted :
     let s := run _ _ (bstep true) (binit, [BClose; BAttach 7; BClose]) sched in
     snd s = [BDone; BAttached; BDone] /\ b_slot (fst s) = Some 7 /\ cnt 7 (b_closedlog (fst s)) = 0 /\ cnt 7 (b_attached (fst s)) = 1.
 Proof. exists [0; 0; 0; 1; 2; 2; 2]. vm_compute. repeat split; reflexivity. Qed.
+
+(* ================================================================================================ *)
+(* I. closers of one session connection: remove under the lock first, then release                   *)
+(* ================================================================================================ *)
+Definition iown (t : ipc) : list unit := match t with IRelease true => [tt] | _ => [] end.
+Definition ith_ok (sh : ish) (t : ipc) : Prop :=
+  match t with IRelease _ | IDone => i_present sh = false | IRemove => False | _ => True end.
+Definition IInv (s : ish * list ipc) : Prop :=
+  let sh := fst s in let ls := snd s in
+  Forall (ith_ok sh) ls /\
+  i_released sh + (if i_present sh then 1 else 0) + length (flat_map iown ls) = 1.
+
+Lemma ith_ok_mono sh sh' t : (i_present sh = false -> i_present sh' = false) -> ith_ok sh t -> ith_ok sh' t.
+Proof. unfold ith_ok. destruct t; auto. Qed.
+
+Lemma iinv_step s i : IInv s -> IInv (sys_step _ _ (istep true) s i).
+Proof.
+  destruct s as [sh ls]. unfold IInv, sys_step. cbn [fst snd]. intros [Hok Hc].
+  destruct (nth_error ls i) as [x|] eqn:En; [|cbn [fst snd]; auto].
+  assert (Hx : ith_ok sh x) by (eapply Forall_nth; eauto).
+  destruct (fm_upd2 iown ls i x En) as (a & b & Ha & Hupd).
+  rewrite Ha in Hc. rewrite !app_length in Hc.
+  destruct sh as [pr rl]. cbn [i_present i_released] in *.
+  destruct x as [|own| | |]; cbn [istep fst snd i_present i_released].
+  - (* ILookup: look up and delete *)
+    split.
+    + apply Forall_upd; [|reflexivity]. eapply Forall_impl; [|exact Hok]. intros t. apply ith_ok_mono. auto.
+    + rewrite Hupd, !app_length. cbn [iown length] in *. destruct pr; cbn [iown length]; lia.
+  - (* IRelease *)
+    cbn in Hx. subst pr. destruct own; cbn [fst snd i_present i_released].
+    + split.
+      * apply Forall_upd; [|reflexivity]. eapply Forall_impl; [|exact Hok]. intros t. apply ith_ok_mono. auto.
+      * rewrite Hupd, !app_length. cbn [iown length i_present i_released] in *. lia.
+    + split.
+      * apply Forall_upd; [exact Hok|reflexivity].
+      * rewrite Hupd, !app_length. cbn [iown length i_present i_released] in *. lia.
+  - destruct Hx.
+  - rewrite (upd_nth_same ls i _ En). split; [exact Hok|]. rewrite Ha, !app_length. exact Hc.
+  - (* IMgrClose *)
+    split.
+    + apply Forall_upd; [|destruct pr; reflexivity].
+      destruct pr; [|exact Hok]. eapply Forall_impl; [|exact Hok]. intros t. apply ith_ok_mono. auto.
+    + rewrite Hupd, !app_length. cbn [iown length] in *. destruct pr; cbn [i_present i_released]; lia.
+Qed.
+
+(* ANY number of CloseConnection calls for the connection and SessionManager.Close calls, ANY schedule: the release body
+   never runs twice; once every closer has returned (and there was one) it ran exactly once and the entry is gone *)
+Theorem connection_released_once ts sched :
+  forallb i_initial ts = true ->
+  let s := run _ _ (istep true) (iinit, ts) sched in
+  i_released (fst s) <= 1 /\
+  (forallb i_done (snd s) = true -> snd s <> [] -> i_released (fst s) = 1 /\ i_present (fst s) = false).
+Proof.
+  intros Hi s.
+  assert (HI : IInv s).
+  { unfold s. apply inv_all_schedules; [intros s0 i; apply iinv_step|].
+    rewrite forallb_forall in Hi. split; cbn [fst snd iinit i_present i_released].
+    - rewrite Forall_forall. intros t Ht. apply Hi in Ht. destruct t; cbn in Ht; try discriminate; exact I.
+    - assert (E : flat_map iown ts = []).
+      { induction ts as [|t r IH]; cbn; [reflexivity|].
+        assert (Ht : i_initial t = true) by (apply Hi; left; reflexivity).
+        destruct t; cbn in Ht; try discriminate; cbn; apply IH; intros y Hy; apply Hi; right; exact Hy. }
+      rewrite E. reflexivity. }
+  destruct s as [sh ls]. destruct HI as [Hok Hc]. cbn [fst snd] in *. split; [destruct (i_present sh); lia|].
+  intros Hd Hne. rewrite forallb_forall in Hd.
+  assert (Hp : i_present sh = false).
+  { destruct ls as [|t r]; [congruence|]. rewrite Forall_forall in Hok.
+    specialize (Hok t (or_introl eq_refl)). specialize (Hd t (or_introl eq_refl)). destruct t; cbn in Hd; try discriminate. exact Hok. }
+  assert (Ho : flat_map iown ls = []).
+  { destruct (flat_map iown ls) eqn:E; [reflexivity|]. exfalso.
+    assert (Hn : flat_map iown ls <> []) by (rewrite E; discriminate).
+    apply fm_nonempty in Hn. destruct Hn as (x & Hx & Hf). specialize (Hd x Hx). destruct x; cbn in Hd, Hf; try discriminate; congruence. }
+  rewrite Ho, Hp in Hc. cbn in Hc. split; [lia|exact Hp].
+Qed.
+
+(* release first, delete afterwards: two overlapping CloseConnection calls both find the entry and both release it *)
+Lemma release_before_remove_refuted :
+  exists sched, i_released (fst (run _ _ (istep false) (iinit, [ILookup; ILookup]) sched)) = 2.
+Proof. exists [0; 1; 0; 1; 0; 1]. vm_compute. reflexivity. Qed.
+Lemma release_before_remove_mgr_refuted :
+  exists sched, i_released (fst (run _ _ (istep false) (iinit, [ILookup; IMgrClose]) sched)) = 2.
+Proof. exists [0; 1; 0; 0]. vm_compute. reflexivity. Qed.
+
+(* ================================================================================================ *)
+(* J. ResourceManager                                                                                *)
+(* ================================================================================================ *)
+Lemma fold_left_inv {A B} (f : A -> B -> A) (P : A -> Prop) :
+  (forall a b, P a -> P (f a b)) -> forall l a, P a -> P (fold_left f l a).
+Proof. intros H l. induction l as [|b r IH]; cbn; intros a Ha; [exact Ha|]. apply IH, H, Ha. Qed.
+
+Lemma rm_has_in id l : rm_has id l = false -> ~ In id (map fst l).
+Proof.
+  unfold rm_has. induction l as [|p r IH]; cbn; [auto|]. intros H [E|Hin].
+  - rewrite E, Nat.eqb_refl in H. discriminate.
+  - apply orb_false_iff in H. destruct H as [_ H]. exact (IH H Hin).
+Qed.
+
+Lemma nodup_filter_fst (l : list (nat * bool)) f : NoDup (map fst l) -> NoDup (map fst (filter f l)).
+Proof.
+  induction l as [|p r IH]; cbn; intros H; [constructor|]. inversion H as [|x xs Hn Hr]; subst.
+  destruct (f p); cbn; [|apply IH; exact Hr]. constructor; [|apply IH; exact Hr].
+  intros Hin. apply Hn. clear - Hin. induction r as [|q t IHr]; cbn in *; [exact Hin|].
+  destruct (f q); cbn in Hin; [destruct Hin; [left; assumption|right; apply IHr; assumption]|right; apply IHr; assumption].
+Qed.
+
+(* for EVERY history of Register / Unregister / DisposeAll the registered names are distinct, so the DisposeAll that
+   follows disposes each registered resource exactly once (in reverse registration order) and leaves nothing registered *)
+Theorem rm_registered_distinct ops : NoDup (map fst (rm_order (rm_run ops))).
+Proof.
+  unfold rm_run. apply fold_left_inv; [|cbn; constructor].
+  intros s op H. destruct op as [id f|id|]; cbn [rm_apply].
+  - destruct (rm_has id (rm_order s)) eqn:E; cbn [rm_order]; [exact H|].
+    rewrite map_app. cbn.
+    assert (Hn : ~ In id (map fst (rm_order s))) by (apply rm_has_in; exact E).
+    clear E. induction (rm_order s) as [|p r IH]; cbn in *; [constructor; [auto|constructor]|].
+    inversion H as [|x xs Hx Hr]; subst. constructor.
+    + rewrite in_app_iff. intros [Hin|[Hin|[]]]; [exact (Hx Hin)|]. apply Hn. left. symmetry. exact Hin.
+    + apply IH; [exact Hr|]. intros Hin. apply Hn. right. exact Hin.
+  - destruct (rm_has id (rm_order s)); cbn [rm_order]; [apply nodup_filter_fst; exact H|exact H].
+  - cbn. constructor.
+Qed.
+
+Theorem rm_dispose_all_once ops :
+  let s := rm_run ops in let s' := rm_apply s RmDisposeAll in
+  rm_order s' = [] /\ rm_log s' = rm_log s ++ rev (map fst (rm_order s)) /\ NoDup (rev (map fst (rm_order s))).
+Proof.
+  intros s s'. split; [reflexivity|]. split.
+  - unfold s'. cbn. rewrite map_rev. reflexivity.
+  - apply NoDup_rev. apply rm_registered_distinct.
+Qed.
+
+(* DisposeWithTimeout, buffered result channel: wherever the caller, the timer and the slow resource stand, once the slow
+   resource has finished the helper needs two steps of its own and is gone: its send can never block *)
+Theorem timeout_helper_always_finishes sh ls h :
+  t_gate sh = true ->
+  (nth_error ls h = Some HRun \/ nth_error ls h = Some HSend \/ nth_error ls h = Some HDone) ->
+  nth_error (snd (run _ _ (tstep2 true) (sh, ls) [h; h])) h = Some HDone.
+Proof.
+  intros Hg Hh.
+  assert (Hlen : h < length ls) by (apply nth_error_Some; destruct Hh as [E|[E|E]]; congruence).
+  cbn [run fold_left]. unfold sys_step at 2. cbn [fst snd].
+  destruct Hh as [E|[E|E]]; rewrite E; cbn [tstep2 orb]; try rewrite Hg; cbn [fst snd];
+    unfold sys_step; cbn [fst snd]; rewrite nth_error_upd_nth_same by exact Hlen; cbn [tstep2 orb fst snd];
+    rewrite nth_error_upd_nth_same by (rewrite upd_nth_length; exact Hlen); reflexivity.
+Qed.
+
+(* unbuffered: the timer fires, the caller returns the timeout result, the slow resource finishes, the helper reaches its
+   send — and no schedule ever moves it again: a goroutine started by the shutdown call outlives it *)
+Lemma unbuffered_result_channel_refuted :
+  exists pre,
+    let s := run _ _ (tstep2 false) (tinit2, [HRun; CSelect true; TFire; GOpen]) pre in
+    snd s = [HSend; CRet true; TFired; GOpened] /\ (forall sched, run _ _ (tstep2 false) s sched = s).
+Proof.
+  exists [2; 1; 3; 0]. split; [vm_compute; reflexivity|].
+  apply run_fixpoint. intros [|[|[|[|i]]]]; try (vm_compute; reflexivity). destruct i; vm_compute; reflexivity.
+Qed.
